@@ -21,7 +21,7 @@ ASSUMPTIONS = [
 SHARD_LIMIT = {"quick": 900, "thorough": 7200}
 
 TEXTS = ["new", "<&>\"q'", "\xe9√", "a\nb", "x]]>y", "On"]
-NUMS = ["7", "7.25", "-2.5", "1:30", "1;30", "1 30", "-0:30:00", "12:30:36", 3.5, ".5", "1:02:03.05", "-20:00:00.07", 1.5e-07, -2.5e-05]  # the last two: Python floats whose repr has an exponent
+NUMS = ["7", "7.25", "-2.5", "1:30", "1;30", "1 30", "-0:30:00", "12:30:36", 3.5, ".5", "1:02:03.05", "-20:00:00.07", "-16777215", "2400000.5", 1.5e-07, -2.5e-05]  # exactly the declared limits of element A; the last two: Python floats whose repr has an exponent
 # number properties in every format family (the client's view shows what the DEVICE renders with its format)
 MORE_NUMBER_VARIANTS = ("number-sexa3", "number-sexa5", "number-sexa8", "number-sexa9", "number-g", "number-d")
 BLOB_SIZES = [0, 1, 3, 255, 256, 1023, 1024, 1025]
